@@ -91,6 +91,9 @@ type rtJob struct {
 	ver  string
 	runs []*rtRun
 	err  error
+	// race-detector build (race:true variants, when cgo is available): reports seen on stderr
+	raceBuilt  bool
+	raceReport string
 }
 
 // ------------------------------------------------------------------ driver source
@@ -531,11 +534,23 @@ func rtRunJob(work string, j *rtJob) error {
 			return err
 		}
 	}
-	build := exec.Command("go", "build", "-o", "drv", ".")
-	build.Dir = dir
-	build.Env = append(os.Environ(), "GOWORK=off")
-	if out, err := build.CombinedOutput(); err != nil {
-		return fmt.Errorf("job %d: the rendered runtime does not compile: %v\n%s", j.idx, err, out)
+	// race:true variants are built with the race detector when cgo is available: concurrent
+	// callers are in the property's quantifier only there, and a racy Track must be seen
+	if j.v.race {
+		rb := exec.Command("go", "build", "-race", "-o", "drv", ".")
+		rb.Dir = dir
+		rb.Env = append(os.Environ(), "GOWORK=off", "CGO_ENABLED=1")
+		if _, err := rb.CombinedOutput(); err == nil {
+			j.raceBuilt = true
+		}
+	}
+	if !j.raceBuilt {
+		build := exec.Command("go", "build", "-o", "drv", ".")
+		build.Dir = dir
+		build.Env = append(os.Environ(), "GOWORK=off")
+		if out, err := build.CombinedOutput(); err != nil {
+			return fmt.Errorf("job %d: the rendered runtime does not compile: %v\n%s", j.idx, err, out)
+		}
 	}
 	for _, r := range j.runs {
 		var in bytes.Buffer
@@ -567,6 +582,7 @@ func rtRunJob(work string, j *rtJob) error {
 		if r.curSet {
 			cmd.Env = append(cmd.Env, "GOAT_CURRENT_COMPONENT="+r.cur)
 		}
+		cmd.Env = append(cmd.Env, "GORACE=exitcode=0")
 		cmd.Stdin = &in
 		var stderr bytes.Buffer
 		cmd.Stderr = &stderr
@@ -575,6 +591,16 @@ func rtRunJob(work string, j *rtJob) error {
 		want := 0
 		for _, sq := range r.seqs {
 			want += 2 + len(sq.queries)
+		}
+		if j.raceBuilt && strings.Contains(stderr.String(), "DATA RACE") && j.raceReport == "" {
+			rep := stderr.String()
+			if i := strings.Index(rep, "WARNING: DATA RACE"); i >= 0 {
+				rep = rep[i:]
+			}
+			if len(rep) > 600 {
+				rep = rep[:600]
+			}
+			j.raceReport = rep
 		}
 		if err != nil || len(lines) != want {
 			return fmt.Errorf("job %d: driver process failed (%v), %d of %d answers; stderr: %s", j.idx, err, len(lines), want, stderr.String())
@@ -884,6 +910,15 @@ func streamRuntimeOps(s *stream.Stream, c *streamCtx) error {
 		vname := fmt.Sprintf("variant:race=%v,dataType=%d", j.v.race, j.v.dataType)
 		s.Count("compiled")
 		s.Count(vname)
+		if j.raceBuilt {
+			s.Count("race-detector-build")
+			ans := "no-race"
+			if j.raceReport != "" {
+				ans = "race-detected"
+				s.Notes[fmt.Sprintf("race-report-job-%d", j.idx)] = j.raceReport
+			}
+			s.Case("rt:norace "+hdr, ans, "judge:rt:norace "+ans, true)
+		}
 		s.Count(fmt.Sprintf("components:%d", len(j.s.comps)))
 		for _, cp := range j.s.comps {
 			if len(cp.ids) == 0 {
